@@ -112,6 +112,66 @@ func lowerSet(a map[string]bool) map[string]bool {
 	return out
 }
 
+// r39EncodersDoNotRewrite: no MarshalJSON of tms20 stores into a field of a tms20 model value (the encoder emits
+// what was decoded; e.g. rewriting TileMatrix.ID from the map key loses a non-canonical id).
+func r39EncodersDoNotRewrite(c *core.Ctx, R string) {
+	n := 0
+	for _, f := range sortedFuncs(c.P) {
+		if core.ShortPkg(f.Pkg.PkgPath) != "tms20" || f.Decl.Name.Name != "MarshalJSON" || f.SSA == nil {
+			continue
+		}
+		n++
+		bad := ""
+		// the method, its closures, and the package helpers it calls (two levels)
+		fns := core.AllSSAFuncs(f.SSA)
+		seenFn := map[*ssa.Function]bool{}
+		for _, x := range fns {
+			seenFn[x] = true
+		}
+		for depth := 0; depth < 2; depth++ {
+			for _, x := range append([]*ssa.Function{}, fns...) {
+				for _, b := range x.Blocks {
+					for _, in := range b.Instrs {
+						if ci, ok := in.(ssa.CallInstruction); ok {
+							if g := ci.Common().StaticCallee(); g != nil && !seenFn[g] && len(g.Blocks) > 0 && core.ShortPkg(core.FuncPkgPath(g)) == "tms20" && !strings.HasSuffix(g.Name(), "MarshalJSON") {
+								seenFn[g] = true
+								fns = append(fns, core.AllSSAFuncs(g)...)
+							}
+						}
+					}
+				}
+			}
+		}
+		for _, fn := range fns {
+			for _, b := range fn.Blocks {
+				for _, in := range b.Instrs {
+					st, ok := in.(*ssa.Store)
+					if !ok {
+						continue
+					}
+					fa, ok := st.Addr.(*ssa.FieldAddr)
+					if !ok {
+						continue
+					}
+					t := fa.X.Type()
+					if p, ok := t.Underlying().(*types.Pointer); ok {
+						t = p.Elem()
+					}
+					nt, ok := t.(*types.Named)
+					if !ok || nt.Obj().Pkg() == nil || core.ShortPkg(nt.Obj().Pkg().Path()) != "tms20" {
+						continue
+					}
+					bad += fmt.Sprintf("%s.%s @%s; ", nt.Obj().Name(), fieldNameOf(fa.X.Type(), fa.Field), c.P.Pos(st.Pos()))
+				}
+			}
+		}
+		c.Check(R, "encoder-does-not-rewrite/"+f.Name, f.Decl.Pos(), bad == "", "MarshalJSON writes no field of a tms20 value", "MarshalJSON assigns to a field of the value it encodes ("+bad+"): the encoding no longer reflects what was decoded")
+	}
+	if n < 3 {
+		c.Bad(R, "encoder-does-not-rewrite/inventory", token.NoPos, fmt.Sprintf("only %d MarshalJSON methods found in tms20", n))
+	}
+}
+
 // R39: every hand-written JSON codec in tms20 reads the keys it writes; the
 // three CRS variants are distinguishable by their required key.
 func r39JSONKeysAgree(c *core.Ctx) {
@@ -271,6 +331,7 @@ func r39JSONKeysAgree(c *core.Ctx) {
 				fmt.Sprintf("%s.MarshalJSON writes key %q which is the required key of %s: the re-encoded document decodes as a different CRS variant", a.name, clash, b.name))
 		}
 	}
+	r39EncodersDoNotRewrite(c, R)
 	c.FloorPrefix(R, "keys-agree/", 5)
 	c.FloorPrefix(R, "crs-variants-exclusive/", 6)
 }
@@ -652,6 +713,19 @@ func r40DecodeTotal(c *core.Ctx) {
 			f := st.Field(i)
 			if f.Name() == "CRS" || f.Name() == "TileMatrices" {
 				c.Check(R, "required-constraint/tms20.TileMatrixSet."+f.Name(), f.Pos(), tagHas(st.Tag(i), "validate", "required"), "required", "TileMatrixSet."+f.Name()+" is not marked required: a document without it is accepted")
+			}
+			if f.Name() == "TileMatrices" {
+				// `required` on a map only means non-nil, and the decoder always makes the map: emptiness needs min=1
+				nonEmpty := false
+				v, _ := reflect.StructTag(st.Tag(i)).Lookup("validate")
+				for _, p := range strings.Split(v, ",") {
+					if strings.HasPrefix(p, "min=") || strings.HasPrefix(p, "gt=") {
+						if n, err := strconv.ParseFloat(p[strings.Index(p, "=")+1:], 64); err == nil && ((strings.HasPrefix(p, "min=") && n >= 1) || (strings.HasPrefix(p, "gt=") && n >= 0)) {
+							nonEmpty = true
+						}
+					}
+				}
+				c.Check(R, "non-empty-constraint/tms20.TileMatrixSet.TileMatrices", f.Pos(), nonEmpty, "min=1: a set without tile matrices is rejected", "TileMatrixSet.TileMatrices has no min=1 constraint: a document with an empty tileMatrices array is accepted (and re-encodes as null, which does not decode)")
 			}
 		}
 	}
